@@ -87,9 +87,12 @@ CopyOk(same) ==
   /\ phase = "copy" /\ (~Touched(F, cur) => same)
   /\ out' = Append(out, [src |-> cur, same |-> same])
   /\ pos' = Ext(cur).e /\ phase' = "header" /\ cur' = 0 /\ UNCHANGED <<F, ltid>>
-\* restoring fails (only damaged bytes can make it fail): abort, scan on from the end of the transaction
+\* restoring fails: abort, scan on from the end of the transaction.  Only damaged bytes can make it fail, or a
+\* back-pointer record whose data_txn is not in the output unchanged: FileStorage.restore looks the hinted
+\* transaction up with _txn_find, which raises UndoError when there is none (the hint is not "ignored").
+HintMissing(i) == \E j \in Ext(i).dtx : ~\E k \in 1..Len(out) : out[k].src = j /\ out[k].same
 CopyFail ==
-  /\ phase = "copy" /\ Touched(F, cur)
+  /\ phase = "copy" /\ (Touched(F, cur) \/ HintMissing(cur))
   /\ pos' = Ext(cur).e /\ phase' = "scan" /\ cur' = 0 /\ UNCHANGED <<F, ltid, out>>
 \* an exception outside the tool's handlers while it works on damaged bytes ends it abnormally
 Crash ==
